@@ -1,5 +1,6 @@
 """C01 Canonicity: hash-consing discipline"""
 import eptr
+import eidx
 import elin
 import eswap
 import evlm
@@ -77,4 +78,9 @@ def run(ctx):
                 "bits: retagging changes only the tag, untagging clears exactly the tag bits, is_inner reads the bit above them.")
     npt = eptr.run(ctx, F)
     ctx.floor("E-PTR.tagbits", "interpreted mask / accessor situations", npt, 11)
+    ctx.explain("E-IDX.tagbits: the same for the index-based manager's 32 bit edges (tag in the most significant bits): "
+                "TAG_BITS / TAG_SHIFT / TAG_MASK and node_id / is_tagged / with_tag / with_tag_owned / tag / raw are interpreted "
+                "for a one-bit tag and for no tag.")
+    nit = eidx.run(ctx, F)
+    ctx.floor("E-IDX.tagbits", "interpreted constant / accessor situations", nit, 18)
     ctx.not_decided = "the 'iff' over histories (gc, slot reuse, reordering); handle equality across managers"
